@@ -134,6 +134,11 @@ func (db *MultiBucketBackend) getBucketWithFilePrefixLocked(bucket string, prefi
 
 	dirEntries, err := afero.ReadDir(db.bucketFs, filepath.FromSlash(bucketPath))
 	if os.IsNotExist(err) {
+		// No directory for the prefix means no key matches it; only a
+		// missing bucket directory means there is no such bucket:
+		if exists, _ := afero.DirExists(db.bucketFs, filepath.FromSlash(bucket)); exists && prefixPath != "" {
+			return gofakes3.NewObjectList(), nil
+		}
 		return nil, gofakes3.BucketNotFound(bucket)
 	} else if err != nil {
 		return nil, err
